@@ -2120,6 +2120,24 @@ instance (ty : Nat) (rd : Wire.RData) : Decidable (RDataWF ty rd) := by
 instance (r : RecIn) (now : Nat) : Decidable (RecWF r now) := by unfold RecWF; infer_instance
 instance (o : OutMsg) : Decidable (MsgWF o) := by unfold MsgWF; infer_instance
 
+/-- messages that the reference reader must return for a list of packets: TC on all but the last -/
+def expMsgs (o : OutMsg) : List Packet → List Ref.Msg
+  | [] => []
+  | [p] => [expMsg o (wireId o) false p.ghost]
+  | p :: rest => expMsg o (wireId o) true p.ghost :: expMsgs o rest
+
+theorem expMsgs_append (o : OutMsg) (init : List Packet) (last : Packet) :
+    expMsgs o (init ++ [last]) =
+      init.map (fun p => expMsg o (wireId o) true p.ghost) ++ [expMsg o (wireId o) false last.ghost] := by
+  induction init with
+  | nil => simp [expMsgs]
+  | cons p rest ih =>
+    cases hr : rest ++ [last] with
+    | nil => simp at hr
+    | cons q t =>
+      simp only [List.cons_append, hr, expMsgs, List.map_cons]
+      rw [← hr, ih]
+
 theorem allSome_map_some {α : Type} (ms : List α) : allSome (ms.map some) = some ms := by
   induction ms with
   | nil => rfl
